@@ -11,6 +11,7 @@ import (
 	"github.com/Oneledger/protocol/data/network_delegation"
 
 	"verif/harness"
+	"verif/txs/gov"
 	"verif/txs/stk"
 	"verif/txs/xch"
 )
@@ -159,6 +160,24 @@ func multiScenarios() []*harness.Scenario {
 				return bs
 			},
 			Target: send("ag-send"),
+			After:  5,
+		},
+		{
+			// a proposal passes right after EVERY validator dropped below the minimum self-delegation: when the
+			// block hook finalises it (and shares out its funds) no validator has an active status any more.
+			// (Added after a seeded change - the validators' share divided by the number of ACTIVE validators -
+			// escaped all histories: a hook fed by a count that valid transactions bring to zero.)
+			Kind: action.PROPOSAL_VOTE.String(), Note: "multi-decisive-vote-after-every-validator-dropped-below-the-minimum",
+			World: func() *harness.World { return harness.NewWorld("multi-noactive", 4, 3) },
+			Prefix: func(w *harness.World) []harness.BlockSpec {
+				bs := gov.PrefixUpToFirstVote(w, gov.PID("multi-noactive"))
+				var txs []*harness.TxSpec
+				for i, v := range w.Vals {
+					txs = append(txs, stk.Unstake(v.Val, v.Stake, stk.WholeOLT(v.Power-400000), fmt.Sprintf("na-u%d", i)))
+				}
+				return append(bs, harness.BlockSpec{Txs: txs})
+			},
+			Target: func(w *harness.World) *harness.TxSpec { return gov.SecondYesVote(w, gov.PID("multi-noactive")) },
 			After:  5,
 		},
 		{
